@@ -295,15 +295,26 @@ def run(ctx):
         _c16.run(ctx.borrowed("C16", "C02.S7:"))
     prog = ctx.prog
     # ---- S1
+    # the choke point functions are read through private helpers parts of them may have been moved into
+    # (`write_unsigned(out, n)`): such a helper's writes are classified by S2 as writes of the function that calls it
+    from .. import inline
+    S2_KEEP = ("write_str", "write_fmt", "write_char", "needs_html_escaping", "is_ascii_integer_str", "json_escape_write",
+               "write_with_html_escaping", "write_escaped", "is_safe", "as_str", "kind", "to_string", "format")
+    choke = {fp: inline.view(prog, prog.fn(fp), keep=S2_KEEP)
+             for fp in ("minijinja::utils::write_escaped", "minijinja::utils::write_with_html_escaping")}
     n1 = 0
     for f in prog.fns.values():
         for c in f.calls():
             if c.name in OUT_WRITES:
                 n1 += 1
+                ok1 = f.path in WRITERS
+                if not ok1 and not f.is_pub:
+                    sites = prog.callers().get(f.path, [])
+                    ok1 = bool(sites) and all(k.fn.path in choke and f.path in inline.inlined_helpers(choke[k.fn.path]) for k in sites)
                 ctx.ob("C02.S1.output-writers-are-reviewed", "%s|%s" % (f.path, c.name.split("::")[-1]),
-                       f.path in WRITERS, "a function outside the escape choke point writes to the output sink",
+                       ok1, "a function outside the escape choke point writes to the output sink",
                        f.where(c.bb))
-    ctx.floor("C02.S1 writes to Output", n1, 14)
+    ctx.floor("C02.S1 writes to Output", n1, 10)
     ev = prog.fn("minijinja::vm::Executor::eval_impl")
     disp = arms.enum_switches(prog, ev, INSTR)
     ctx.need(disp, "C02.S1: dispatch switch not found")
@@ -325,7 +336,7 @@ def run(ctx):
     # ---- S2
     n2 = 0
     for fpath in ("minijinja::utils::write_escaped", "minijinja::utils::write_with_html_escaping"):
-        f = prog.fn(fpath)
+        f = choke[fpath]
         esc_blocks = {bb for bb, i, s in f.all_stmts() if s.get("rv", {}).get("k") == "agg"
                       and s["rv"].get("adt") == "minijinja::utils::HtmlEscape"}
         k = {}
@@ -367,7 +378,7 @@ def run(ctx):
                    reason or "write to the output that is neither an HtmlEscape rendering nor under one of the "
                              "enumerated safe-content conditions; guards: %s" % [(g[0], str(g[1])[:40], str(g[2])[:40]) for g in gf],
                    f.where(c.bb))
-    ctx.floor("C02.S2 write sites in the choke point", n2, 12)
+    ctx.floor("C02.S2 write sites in the choke point", n2, 8)
 
     # ---- S9: who may carry the safe flag over.  `preserve_safety(output)` marks `output` safe whenever the *input* was
     # safe; that is only sound for transforms that cannot produce markup from escaped text.  A decoding transform
